@@ -107,13 +107,18 @@ def _is_elif(parent: ast.If, child: ast.If) -> bool:
 # ---------------------------------------------------------------------------------------------------------------------
 # N3 guard-clause form
 
-def _flatten_block(stmts: List[ast.stmt]) -> List[ast.stmt]:
+def _flatten_block(stmts: List[ast.stmt], in_loop: bool = False) -> List[ast.stmt]:
+    # in a loop body `...; if c: rest` (last statement, no else) is the same as `...; if not c: continue; rest`
+    if in_loop and stmts and isinstance(stmts[-1], ast.If) and not stmts[-1].orelse and not _terminates(stmts[-1].body):
+        last = stmts[-1]
+        guard = ast.copy_location(ast.If(test=_negate(last.test), body=[ast.copy_location(ast.Continue(), last)], orelse=[]), last)
+        stmts = list(stmts[:-1]) + [guard] + list(last.body)
     out: List[ast.stmt] = []
     for st in stmts:
         for field in ("body", "orelse", "finalbody"):
             sub = getattr(st, field, None)
             if isinstance(sub, list) and sub and isinstance(sub[0], ast.stmt):
-                setattr(st, field, _flatten_block(sub))
+                setattr(st, field, _flatten_block(sub, in_loop=(field == "body" and isinstance(st, (ast.For, ast.AsyncFor, ast.While)))))
         if isinstance(st, ast.Try):
             for h in st.handlers:
                 h.body = _flatten_block(h.body)
@@ -172,7 +177,8 @@ class Helper:
     def __init__(self, fn, kind, owner=None):
         self.fn, self.kind, self.owner = fn, kind, owner  # kind: "function" | "method" | "static" | "class"
         a = fn.args
-        self.ok = not (a.vararg or a.kwarg or a.posonlyargs)
+        self.ok = not (a.kwarg or a.posonlyargs)
+        self.vararg = a.vararg.arg if a.vararg else None
         self.params = [p.arg for p in a.args]
         if kind in ("method", "class") and self.params:
             self.self_name = self.params[0]
@@ -194,10 +200,13 @@ class Helper:
         if not self.ok or any(isinstance(a, ast.Starred) for a in call.args) or any(k.arg is None for k in call.keywords):
             return None
         m: Dict[str, ast.AST] = {}
-        if len(call.args) > len(self.params):
+        npos = len(self.params) - len(self.fn.args.kwonlyargs)
+        if len(call.args) > npos and self.vararg is None:
             return None
-        for p, a in zip(self.params, call.args):
+        for p, a in zip(self.params[:npos], call.args):
             m[p] = a
+        if self.vararg is not None:
+            m[self.vararg] = ast.Tuple(elts=list(call.args[npos:]), ctx=ast.Load())
         for k in call.keywords:
             if k.arg not in self.params or k.arg in m:
                 return None
@@ -773,6 +782,21 @@ def _loops_to_comprehensions(stmts: List[ast.stmt]) -> List[ast.stmt]:
     return out
 
 
+class _SpliceStarredTuples(ast.NodeTransformer):
+    """f(*(a, b)) -> f(a, b)   (left behind when a *args helper is inlined)"""
+
+    def visit_Call(self, node):
+        self.generic_visit(node)
+        new_args = []
+        for a in node.args:
+            if isinstance(a, ast.Starred) and isinstance(a.value, (ast.Tuple, ast.List)):
+                new_args.extend(a.value.elts)
+            else:
+                new_args.append(a)
+        node.args = new_args
+        return node
+
+
 class _GetattrLiteral(ast.NodeTransformer):
     """getattr(x, 'name') -> x.name   (two-argument form with a literal identifier)"""
 
@@ -976,6 +1000,7 @@ def normalise_module(module_name: str, tree: ast.Module) -> ast.Module:
         _swap_negative_ifs(tree)
     tree.body = _flatten_block(tree.body)
     tree = _GetattrLiteral().visit(tree)
+    tree = _SpliceStarredTuples().visit(tree)
     for n in ast.walk(tree):
         if isinstance(n, FDEFS):
             n.body = _loops_to_comprehensions(n.body)
